@@ -159,11 +159,11 @@ impl Property for C03 {
         "C03"
     }
     fn rule(&self) -> &'static str {
-        "case = (function | constraint | removed constraint | instance with removed constraints, dependencies, irrelevant variables; any representation) x in-bound state x split into fixed part s1 (possibly with non-occurring ids, possibly applied in two steps in either order) and remainder s2; also functions of 9..257 terms listed in ascending id order with repeated ids of which 1..3 variables are fixed, and instances in which a variable fixed earlier has re-entered the functions and is fixed again; \
+        "case = (function | constraint | removed constraint | instance with removed constraints, dependencies, irrelevant variables; any representation) x in-bound state x split into fixed part s1 (possibly with non-occurring ids, possibly applied in two steps in either order) and remainder s2; also functions of 9..257 terms listed in ascending id order with repeated ids of which 1..3 variables are fixed, and instances in which a variable fixed earlier has re-entered the functions and is fixed again, instances with a crowd of 12..70 further unused variables in a scrambled list, and (dyadic regime) fixed sets that also name a dependent variable at the value its definition gives it, where the statement's relation evaluate(partial(I,s1),s2) = evaluate(I,s1 u s2) is checked directly; \
          oracle = exact partial evaluation of the raw polynomial + reference evaluator at s1 u s2; non-trivial = s1, s2 non-empty and a term mixing a fixed and a free variable; distinct = sha256(object, s1, s2, steps)"
     }
     fn required_labels(&self) -> Vec<String> {
-        ["level=function", "level=constraint", "level=removed-constraint", "level=instance", "removed-constraint", "dependency", "non-normalised", "two-step", "fixed-id-not-occurring", "regime=general", "regime=dyadic", "mixed-term", "big-sorted-function", "big-sorted-function-repeats-an-id", "fixed-variable-mentioned-again-and-fixed-again"]
+        ["level=function", "level=constraint", "level=removed-constraint", "level=instance", "removed-constraint", "dependency", "non-normalised", "two-step", "fixed-id-not-occurring", "regime=general", "regime=dyadic", "mixed-term", "big-sorted-function", "big-sorted-function-repeats-an-id", "fixed-variable-mentioned-again-and-fixed-again", "crowd-of-unused-variables", "fixed-set-names-a-dependent-variable"]
             .iter()
             .map(|s| s.to_string())
             .collect()
@@ -361,7 +361,9 @@ impl Property for C03 {
         ctx.label("level=instance");
         let mut cfg = InstCfg::new(regime);
         cfg.kinds.extend([4, 5]);
+        cfg.crowd = true;
         let reenter = t.p(48);
+        let fixdep = t.p(40);
         let mut gi = gen_instance(t, &cfg, ctx);
         let include_irrelevant = t.coin();
         let state = gen_inst_state(t, &gi, regime, include_irrelevant);
@@ -377,6 +379,83 @@ impl Property for C03 {
             }
             s1.entries.insert(fx, v);
             ctx.label("fixed-variable-mentioned-again-and-fixed-again");
+        }
+        if fixdep && regime == Regime::Dyadic && !gi.dependent.is_empty() {
+            // The fixed set also names a DEPENDENT variable, at the value its definition gives it (as when a whole
+            // earlier solution is fixed). A value contradicting the definition is not a "combined assignment" of the
+            // problem and is left out (a check over contradicting values was tried and fired on the unchanged tree
+            // for x1 := 1, x2 := x1 with x1 fixed at 0; see DESIGN round 8). The statement's own relation is checked
+            // directly: evaluate(partial_evaluate(I, s1), s2) == evaluate(I, s1 u s2), error for error.
+            let d = gi.dependent[t.choice(gi.dependent.len())];
+            let dv = gi.inst.decision_variables.iter().find(|v| v.id == d).unwrap().clone();
+            let mut base = s2.clone();
+            for (k, v) in &s1.entries {
+                base.entries.insert(*k, *v);
+            }
+            let val = match model::evaluate(&gi.inst, &base) {
+                Ok(m0) => match m0.state.get(&d) {
+                    Some((qv, _)) => {
+                        let f = q_to_f64(qv);
+                        let (lo, hi) = effective_bound(&dv).unwrap_or((f64::NEG_INFINITY, f64::INFINITY));
+                        if &q(f) == qv && f >= lo && f <= hi {
+                            Some(f)
+                        } else {
+                            None
+                        }
+                    }
+                    None => None,
+                },
+                Err(_) => None,
+            };
+            let Some(val) = val else {
+                ctx.label("fixed-dependent/skipped");
+                return Ok(());
+            };
+            s1.entries.insert(d, val);
+            ctx.label("fixed-set-names-a-dependent-variable");
+            ctx.nontrivial();
+            let inst = &gi.inst;
+            fp_instance(ctx, inst);
+            ctx.fp_state(&s1);
+            ctx.fp_state(&s2);
+            ctx.fp(&[0xDE]);
+            ctx.sample_with(|| json!({"level": "instance, fixed set names a dependent variable", "instance": describe_inst(inst), "fixed": format!("{:?}", sorted_state(&s1)), "remaining": format!("{:?}", sorted_state(&s2))}));
+            let mut full = s2.clone();
+            for (k, v) in &s1.entries {
+                full.entries.insert(*k, *v);
+            }
+            let mut pe = inst.clone();
+            let r_pe = pe.partial_evaluate(&s1).and_then(|_| pe.evaluate(&s2));
+            let r0 = inst.evaluate(&full);
+            let ctxmsg = |m: String| format!("{m}\n instance {}\n fixed {:?} remaining {:?}", describe_inst(inst), sorted_state(&s1), sorted_state(&s2));
+            return match (r0, r_pe) {
+                (Err(_), Err(_)) => {
+                    ctx.label("fixed-dependent/both-rejected");
+                    Ok(())
+                }
+                (Ok(_), Err(e)) => fail("C03/instance/fixed-dependent/remainder-rejected", ctxmsg(format!("evaluating the original at the combined assignment succeeds, evaluating the partially evaluated instance fails: {e:#}"))),
+                (Err(e), Ok(_)) => fail("C03/instance/fixed-dependent/original-rejected", ctxmsg(format!("evaluating the partially evaluated instance succeeds, the original at the combined assignment fails: {e:#}"))),
+                (Ok((a, _)), Ok((b, _))) => {
+                    let close = |x: f64, y: f64| (x - y).abs() <= 1e-9 * (1.0 + x.abs().max(y.abs()));
+                    if !close(a.objective, b.objective) {
+                        return fail("C03/instance/fixed-dependent/objective", ctxmsg(format!("objective {} (original at the combined assignment) vs {} (remainder)", a.objective, b.objective)));
+                    }
+                    if a.feasible != b.feasible || a.feasible_relaxed != b.feasible_relaxed {
+                        return fail("C03/instance/fixed-dependent/flags", ctxmsg(format!("feasibility flags ({}, {:?}) vs ({}, {:?})", a.feasible, a.feasible_relaxed, b.feasible, b.feasible_relaxed)));
+                    }
+                    let ca: BTreeMap<u64, f64> = a.evaluated_constraints.iter().map(|c| (c.id, c.evaluated_value)).collect();
+                    let cb: BTreeMap<u64, f64> = b.evaluated_constraints.iter().map(|c| (c.id, c.evaluated_value)).collect();
+                    if ca.len() != cb.len() || ca.iter().any(|(k, v)| cb.get(k).map(|w| !close(*v, *w)).unwrap_or(true)) {
+                        return fail("C03/instance/fixed-dependent/constraint-values", ctxmsg(format!("constraint values {ca:?} vs {cb:?}")));
+                    }
+                    let sa: BTreeMap<u64, f64> = a.state.as_ref().map(|s| s.entries.iter().map(|(k, v)| (*k, *v)).collect()).unwrap_or_default();
+                    let sb: BTreeMap<u64, f64> = b.state.as_ref().map(|s| s.entries.iter().map(|(k, v)| (*k, *v)).collect()).unwrap_or_default();
+                    if sa.len() != sb.len() || sa.iter().any(|(k, v)| sb.get(k).map(|w| !close(*v, *w)).unwrap_or(true)) {
+                        return fail("C03/instance/fixed-dependent/state", ctxmsg(format!("reported variable values {sa:?} (original at the combined assignment) vs {sb:?} (remainder)")));
+                    }
+                    Ok(())
+                }
+            };
         }
         if t.p(40) {
             // an id that is not a variable of the instance at all
